@@ -39,7 +39,7 @@ func (r *Rng) Intn(n int) int {
 	return int(r.U64() % uint64(n))
 }
 
-func (r *Rng) Float() float64 { return float64(r.U64()>>11) / float64(1<<53) }
+func (r *Rng) Float() float64   { return float64(r.U64()>>11) / float64(1<<53) }
 func (r *Rng) P(p float64) bool { return r.Float() < p }
 func (r *Rng) Fork() *Rng       { return NewRng(r.U64()) }
 
@@ -64,15 +64,15 @@ type Val struct {
 	M []KV    `json:"m,omitempty"`
 }
 
-func VNil() Val             { return Val{K: "nil"} }
-func VS(s string) Val       { return Val{K: "s", S: s} }
-func VI(i int64) Val        { return Val{K: "i", I: i} }
-func VF(f float64) Val      { return Val{K: "f", F: f} }
-func VB(b bool) Val         { return Val{K: "b", B: b} }
-func VT(s string) Val       { return Val{K: "t", S: s} }
-func VL(l ...Val) Val       { return Val{K: "l", L: l} }
-func VM(kv ...KV) Val       { return Val{K: "m", M: kv} }
-func (v Val) IsNil() bool   { return v.K == "nil" || v.K == "" }
+func VNil() Val           { return Val{K: "nil"} }
+func VS(s string) Val     { return Val{K: "s", S: s} }
+func VI(i int64) Val      { return Val{K: "i", I: i} }
+func VF(f float64) Val    { return Val{K: "f", F: f} }
+func VB(b bool) Val       { return Val{K: "b", B: b} }
+func VT(s string) Val     { return Val{K: "t", S: s} }
+func VL(l ...Val) Val     { return Val{K: "l", L: l} }
+func VM(kv ...KV) Val     { return Val{K: "m", M: kv} }
+func (v Val) IsNil() bool { return v.K == "nil" || v.K == "" }
 func (v Val) Clone() Val {
 	c := v
 	if v.L != nil {
